@@ -69,11 +69,15 @@ DECODERS_FOR = {
     'MatchingDecoder': [{}, {'error_type': 'X'}, {'error_type': 'Z'}],
     'BeliefPropagationOSDDecoder': [
         {}, {'max_bp_iter': 10}, {'osd_order': 3, 'max_bp_iter': 20},
+        {'osd_order': 0}, {'osd_order': 0, 'max_bp_iter': 0},
         {'channel_update': True}, {'bp_method': 'product_sum'}],
     'UnionFindDecoder': [{}],
     'SweepMatchDecoder': [{}],
     'RotatedSweepMatchDecoder': [{}, {'max_rounds': 4}],
     'XCubeMatchingDecoder': [{}],
+    'MemoryBeliefPropagationDecoder': [{}, {'alpha': 0.0},
+                                       {'max_bp_iter': 3, 'beta': 0.0,
+                                        'alpha': 0.5}],
 }
 
 
@@ -111,6 +115,13 @@ def gen_ranges(rng):
         d = [round(float(x), 3) for x in d]
         d[2] = round(1 - d[0] - d[1], 6)
         p = {'r_x': d[0], 'r_y': d[1], 'r_z': d[2]}
+        if rng.random() < 0.15:
+            # hand-typed truncated decimals (sum within isclose of 1)
+            p = [{'r_x': 0.333333333, 'r_y': 0.333333333,
+                  'r_z': 0.333333333},
+                 {'r_x': 0.0454545, 'r_y': 0.0454545, 'r_z': 0.9090909},
+                 {'r_x': 0.33333, 'r_y': 0.33333, 'r_z': 0.33334}][
+                int(rng.integers(0, 3))]
         if names and rng.random() < 0.4:
             p['deformation_name'] = names[0]
         ems.append(p)
